@@ -3,9 +3,10 @@
 # The patch is never committed; /repo is restored even if the check fails.
 id=$1; prop=$2; tier=${3:-quick}
 here=$(cd "$(dirname "$0")/.." && pwd)
-git -C /repo diff --quiet || { echo "/repo has uncommitted changes" >&2; exit 3; }
-git -C /repo apply "$here/seeded/$id/patch.diff" || exit 3
-trap 'git -C /repo checkout -- .' EXIT INT TERM
+repo=${VERIF_REPO:-/repo}          # a private copy (vp run --with-repo: VERIF_REPO=$VP_RUN_REPO) leaves /repo alone
+git -C "$repo" diff --quiet || { echo "$repo has uncommitted changes" >&2; exit 3; }
+git -C "$repo" apply "$here/seeded/$id/patch.diff" || exit 3
+trap 'git -C "$repo" checkout -- .' EXIT INT TERM
 VERIF_EVIDENCE_DIR=/tmp/seeded-evidence VERIF_REPLAY_DIR=/tmp/seeded-replays "$here/check" "$prop" --tier "$tier"
 code=$?
 echo "seeded=$id property=$prop tier=$tier exit=$code"
